@@ -1,8 +1,22 @@
-(* C02 entry points: the batch-processor acceptor (Batch/Model.v) + the C02 history checkers. *)
-From V Require Export Batch.Spec.
-Definition run_model := Batch.Glue.run_model.
-Definition run_tag := Batch.Glue.run_tag.
+(* C02 entry points: the batch-processor acceptor (Batch/Model.v) + the C02 history checkers for BATCH cases,
+   the provider-composition model (Batch/Compose.v) for COMPOSE cases. *)
+From V Require Export Batch.Spec Batch.Compose.
+
+Definition is_compose (l : list tok) : bool := match l with t :: _ => is_tag "COMPOSE" t | [] => false end.
+Definition case_part (l : list tok) : list tok := match split_toks "||" l with c :: _ => c | [] => [] end.
+
+Definition run_model (l : list tok) : list tok :=
+  if is_compose l
+  then match parse_ccase (case_part l) with Some c => compose_model c | None => bad_case end
+  else batch_run_model l.
+Definition run_tag (l : list tok) : list tok :=
+  if is_compose l
+  then match parse_ccase (case_part l) with Some c => compose_tag c | None => bad_case end
+  else batch_run_tag l.
 Definition run_spec (l obs : list tok) : list tok :=
+  if is_compose l
+  then match parse_ccase (case_part l) with Some c => compose_spec c obs | None => bad_case end
+  else
   match parse_case l with
   | None => bad_case
   | Some c =>
